@@ -21,7 +21,7 @@ SHAPE_SCENARIOS = {
 }
 FLAG_SCENARIOS = {"all": (1, 1, 1), "L1off": (1, 0, 1)}
 
-UNARY = ("sin", "neg", "scale", "sum", "sumlast", "flat", "idx0", "detach", "unbind")
+UNARY = ("sin", "neg", "scale", "sum", "sumlast", "flat", "idx0", "detach", "unbind", "tr")
 BINARY = ("add", "mul", "matmul", "stack")
 COMMUTATIVE = ("add", "mul")
 
@@ -47,6 +47,8 @@ def op_result_shapes(op, shapes):
         return [(int(np.prod(s)),)] if len(s) != 1 else None
     if op == "idx0":
         return [s[1:]] if len(s) >= 1 else None
+    if op == "tr":  # transpose of a 2-d value: a dense NON-contiguous view
+        return [(s[1], s[0])] if len(s) == 2 else None
     if op == "unbind":
         return [s[1:]] * s[0] if len(s) >= 1 and s[0] >= 2 else None
     t = shapes[1]
@@ -241,6 +243,8 @@ class RefRun:
             r, tr = a.reshape(-1), ta.reshape(N, -1)
         elif op == "idx0":
             r, tr = a[0], ta[:, 0]
+        elif op == "tr":
+            r, tr = a.T.copy(), np.swapaxes(ta, 1, 2).copy()
         elif op == "unbind":
             for i in range(a.shape[0]):
                 self.val.append(np.asarray(a[i]))
@@ -311,6 +315,8 @@ def build_torch(prog, leaf_vals, dtype="float64"):
             r = a.reshape(-1)
         elif op == "idx0":
             r = a[0]
+        elif op == "tr":
+            r = a.t()
         elif op == "unbind":
             vals.extend(a.unbind(0))
             continue
